@@ -211,6 +211,9 @@ RULES = [
 ]
 from .. import refs as _refs
 RULES = RULES + [_refs.ref_rule('C17')]
+from . import c18 as _c18, shared as _sh17
+RULES = RULES + [("R-C17-publish", 8, "a library under the cache name is always a complete build of the named source (C18's publish rule)", _sh17._relabel(_c18.rule_publish, "R-C17-publish")),
+                 ("R-C17-load", 4, "the loader opens only the published path", _sh17._relabel(_c18.rule_load, "R-C17-load"))]
 
 
 def run(tier="quick", replay=None):
